@@ -232,6 +232,53 @@ theorem C08_reorient_eq_fresh (A : Antenna) (z x : V3) :
   unfold mkAntenna setOrientation Antenna.setOrientation
   by_cases h : Rabs (z.normalize.dot x.normalize) ≤ 1e-8 <;> simp [h]
 
+/-- rejection does not look at the gains, and an accepted input whose gain product vanishes yields
+the zero signal (one zero per filtered sample): an exactly zero gain is no reason to accept
+`undefined` / `power`, nor to skip anything observable -/
+theorem C08_zero_gain (filt : List ℝ → List ℝ) (A : Antenna) (dg : ℝ → ℝ → ℝ)
+    (pg : Antenna → V3 → ℝ) (vals : List ℝ) (dir pol : Option V3)
+    (h0 : gainProduct A dg pg dir pol = 0) :
+    A.applyResponse filt dg pg VType.undefined vals dir pol = none ∧
+    A.applyResponse filt dg pg VType.power vals dir pol = none ∧
+    A.applyResponse filt dg pg VType.voltage vals dir pol
+      = some (List.replicate (filt vals).length 0) ∧
+    A.applyResponse filt dg pg VType.field vals dir pol
+      = some (List.replicate (filt vals).length 0) := by
+  have hr := C08_response_rejects filt A dg pg
+  have hf := C08_response_factor filt A dg pg vals dir pol
+  refine ⟨(hr VType.undefined vals dir pol).mpr (Or.inl rfl), (hr VType.power vals dir pol).mpr (Or.inr rfl), ?_, ?_⟩
+  · rw [hf.1, h0]; simp [List.map_const']
+  · rw [hf.2, h0]; simp [List.map_const']
+
+/-- the three exact ways a dipole's gain product vanishes: polarisation perpendicular to the axis,
+arrival exactly along the axis (orthonormal frame), efficiency zero -/
+theorem C08_dipole_zero_gain (A : Antenna) (d p : V3) :
+    (A.zAxis.dot p.normalize = 0 →
+      gainProduct A dipoleDirectional dipolePolarization (some d) (some p) = 0) ∧
+    (A.eff = 0 → gainProduct A dipoleDirectional dipolePolarization (some d) (some p) = 0) ∧
+    (A.xAxis.dot A.xAxis = 1 → A.zAxis.dot A.zAxis = 1 → A.zAxis.dot A.xAxis = 0 → d.norm ≠ 0 →
+      d.normalize.dot A.zAxis = -1 →
+      gainProduct A dipoleDirectional dipolePolarization (some d) (some p) = 0) := by
+  refine ⟨?_, ?_, ?_⟩
+  · intro h; simp [gainProduct, dipolePolarization, h]
+  · intro h; simp [gainProduct, h]
+  · intro hx hz hzx hd hax
+    obtain ⟨_, h2, h3⟩ := C08_dipole_directional A hx hz hzx d hd
+    have : dipoleDirectional (arrivalAngles A d).1 (arrivalAngles A d).2 = 0 := by
+      rw [h2, h3, hax]; norm_num
+    simp [gainProduct, this]
+
+/-- `receive` raises when the number of polarisations differs from the number of signals or no
+polarisation sequence is given, whatever the signals and gains -/
+theorem C08_receive_count_mismatch (filt : List ℝ → List ℝ) (A : Antenna) (dg : ℝ → ℝ → ℝ)
+    (pg : Antenna → V3 → ℝ) (stored sigs : List Sig) (dir : Option V3) (ps : List (Option V3))
+    (h : sigs.length ≠ ps.length) :
+    A.receive filt dg pg stored sigs dir (some ps) = none ∧
+    A.receive filt dg pg stored sigs dir none = none := by
+  constructor
+  · unfold Antenna.receive; simp [h]
+  · rfl
+
 /-! ## non-vacuity -/
 
 /-- a concrete rotation that is not a coordinate permutation: the rational rotation with rows
@@ -264,3 +311,20 @@ example : (⟨1, 0, 0⟩ : V3).dot ⟨1, 0, 0⟩ = 1 ∧ (⟨0, 0, 1⟩ : V3).do
   rw [V3.norm_eq]
   have : (⟨3, 0, 4⟩ : V3).dot ⟨3, 0, 4⟩ = 5 ^ 2 := by simp only [V3.dot]; norm_num
   rw [this, Real.sqrt_sq (by norm_num)]; norm_num
+
+/-- hypotheses of `C08_receive_sum` are satisfiable: two components of different value types on
+one grid, both accepted (identity filter, unit gains) -/
+example : ∃ (A : Antenna) (comps : List (Sig × Option V3)) (rs : List (List ℝ)),
+    comps ≠ [] ∧ (∀ c ∈ comps, c.1.grid = 3) ∧
+    comps.map (fun c => A.applyResponse id unitDirectional unitPolarization c.1.vt c.1.vals none c.2)
+      = rs.map some := by
+  refine ⟨⟨⟨0, 0, 0⟩, ⟨0, 0, 1⟩, ⟨1, 0, 0⟩, 2, 1⟩,
+    [(⟨3, VType.voltage, [1, 2]⟩, none), (⟨3, VType.field, [4, 6]⟩, none)], [[1, 2], [2, 3]], by simp, by simp, ?_⟩
+  simp [Antenna.applyResponse, signalFactor, unitPolarization]
+  norm_num
+
+/-- the hypothesis of `C08_zero_gain` is met by a dipole with a polarisation along its x axis -/
+example : gainProduct ⟨⟨0, 0, 0⟩, ⟨0, 0, 1⟩, ⟨1, 0, 0⟩, 2, 1⟩ dipoleDirectional dipolePolarization none
+    (some ⟨1, 0, 0⟩) = 0 := by
+  have z1 : ¬ isZero (1 : ℝ) := by rw [isZero_iff]; norm_num
+  simp [gainProduct, dipolePolarization, V3.normalize, V3.norm, V3.dot, z1]
